@@ -21,11 +21,12 @@ def bracket(virt, occ):
     return Add(*[e_(x) for x in virt], *[-e_(x) for x in occ])
 
 
-def fraction_term(g, r, targets):
+def fraction_term(g, r, targets, kind_choices=("VV", "VM", "VVM", "Vf", "AV", "MM"),
+                  n_obj=None):
     """remainder tensors x numerator x denominators; returns sympy term and
     the list of brackets"""
-    base = g.term(targets, kinds=r.choice(["VV", "VM", "VVM", "Vf", "AV", "MM"]),
-                  n_obj=r.randint(1, 3))
+    base = g.term(targets, kinds=r.choice(list(kind_choices)),
+                  n_obj=n_obj or r.randint(1, 3))
     idx = []
     for ix in gen.term_index_list(base):
         if ix not in idx:
@@ -289,6 +290,11 @@ def run(chk):
         # to this property's operations
         from .pipeline import run_pipelines
         run_pipelines(chk, "C13")
+    if chk.tier != "quick":
+        # generated workflows (spec/PipelineGen.tla -> real API -> Pipeline.tla):
+        # the steps that belong to this property's operations
+        from .chains import run_chains
+        run_chains(chk, 60, cfg="PipelineGen_l6.cfg", only_prop="C13")
     return chk.finish(
         rule="seeded fraction terms (remainder tensors x numerator with "
              "rational coefficients x 1-3 sign-definite brackets with "
